@@ -1,5 +1,5 @@
 """C05 (and the value part of C06): replay of OdmlValues transitions into real Properties."""
-import datetime as dt, random
+import datetime as dt, random, zlib
 from . import common as C
 odml = C.import_odml()
 from odml import dtypes
@@ -14,7 +14,7 @@ CLASSES = {
     "tuple2": "(7;8)", "tuple3": "(7;8;9)", "bracketed": "[a, b]", "dict": {"a": 1},
     "datetime_tz": dt.datetime(2020, 1, 2, 12, 30, 45, tzinfo=dt.timezone(dt.timedelta(hours=2))),
     "time_tz": dt.time(12, 30, 45, tzinfo=dt.timezone(dt.timedelta(hours=-5))), "inf": float("inf"), "bigint": 2 ** 70,
-    "s_int_ws": " 12 ", "s_float_exp": "1e3",
+    "s_int_ws": " 12 ", "s_float_exp": "1e3", "tuple2e": "(1;)", "tuple3e": "(x;;)",      # tuples with empty components
     "none": None, "empty": "", "elist": [], "edict": {},
     "list_int": [5, 6], "list_str": ["x", "y"], "list_mixed": [1, "a"], "list_s_int": ["5", "6"],
     "list_tuple2": ["(1;2)", "(3;4)"],
@@ -130,7 +130,7 @@ def one(p, op, k):
 
 
 def replay(t):
-    k = hash(repr(sorted(t["op"].items()))) & 1
+    k = zlib.crc32(repr(sorted(t["op"].items())).encode()) & 1
     p = build(t["pre"], k)
     got = facts(p, probe=False)
     if got["dtype"] != t["pre"]["d"] or got["n"] != t["pre"]["n"]:
@@ -147,7 +147,7 @@ def history_cases(n_hist, depth, rng):
 
 SC = ["int", "int0", "negint", "float_i", "float_f", "true", "false", "str", "text", "s_int", "s_float", "s_bool",
       "s_date", "s_time", "s_datetime", "date", "time", "time_us", "datetime", "datetime_us", "tuple2", "tuple3",
-      "bracketed", "dict", "none", "empty", "elist", "edict", "datetime_tz", "time_tz", "inf", "bigint", "s_int_ws", "s_float_exp"]
+      "bracketed", "dict", "none", "empty", "elist", "edict", "datetime_tz", "time_tz", "inf", "bigint", "s_int_ws", "s_float_exp", "tuple2e", "tuple3e"]
 LC = ["list_int", "list_str", "list_mixed", "list_s_int", "list_tuple2"]
 DTS = list(NATIVE)
 
